@@ -81,4 +81,15 @@ def runBackup (emptyHash : H) (g : Loaded H F P) (es : List (FileEv H F P)) : Li
 
 def records (ss : List (Step H F P)) : List (Rec H F P) := ss.map (·.record)
 
+/-- What `load_backups_metadata` gets to see: manifest `i` is readable iff `mask[i]`. -/
+def view : List (List (Rec H F P)) → List Bool → Loaded H F P
+  | rs :: rest, m :: ms => (if m then some rs else none) :: view rest ms
+  | rs :: rest, [] => some rs :: view rest []
+  | [], _ => []
+
+def keepMasked {α} : List α → List Bool → List α
+  | x :: xs, k :: ks => if k then x :: keepMasked xs ks else keepMasked xs ks
+  | xs, [] => xs
+  | [], _ => []
+
 end Vsb.Dedup
